@@ -434,6 +434,9 @@ func (g *treeGen) boolean(depth int) *jpref.Eq {
 		return jpspec.Bin("in", g.operand(0), jpspec.CList([]any{int64(1), "abc", nil, 1.5}))
 	case 4:
 		return jpspec.Bin("rx", g.operand(0), jpspec.CRegex("^a"))
+	case 5:
+		// the two-argument functions (a ! directly in front of one must negate the call, not its first argument)
+		return jpspec.Bin([]string{"match", "search"}[g.r.Intn(2)], g.operand(0), jpspec.CStr([]string{"a.*", "b", "^ab", ".", ""}[g.r.Intn(5)]))
 	default:
 		return jpspec.Bin([]string{"eq", "neq", "lt", "gt", "lte", "gte"}[g.r.Intn(6)], g.operand(1), g.operand(1))
 	}
